@@ -384,8 +384,8 @@ fn compile_error_pos(msg: &str) -> Option<(usize, usize)> {
     None
 }
 
-fn eval_bad_token(src: &str, seed: u64) -> Eval {
-    // choose a token boundary on a line: between two significant tokens of the same line
+/// token boundaries where an illegal token can be planted: (byte offset, 1-based line, number of BAD_TOKENS usable there)
+fn bad_token_sites(src: &str) -> Vec<(usize, usize, usize)> {
     use koto_lexer::Token;
     let toks: Vec<_> = crate::textgen::lex_all(src);
     let mut sites = vec![];
@@ -414,11 +414,24 @@ fn eval_bad_token(src: &str, seed: u64) -> Eval {
             sites.push((t.source_bytes.end, toks[i + 1].span.start.line as usize + 1, 1));
         }
     }
+    sites
+}
+
+fn eval_bad_token(src: &str, seed: u64) -> Eval {
+    let sites = bad_token_sites(src);
     if sites.is_empty() {
         return Eval { discard: true, ..Default::default() };
     }
     let (at, line, n_tok) = sites[(fnv(format!("{seed}:site").as_bytes()) % sites.len() as u64) as usize];
     let tok = BAD_TOKENS[(fnv(format!("{seed}:tok").as_bytes()) % n_tok as u64) as usize];
+    eval_bad_token_at(src, at, line, tok, n_tok == 1)
+}
+
+fn eval_bad_token_at(src: &str, at: usize, line: usize, tok: &str, inside_brackets: bool) -> Eval {
+    if at > src.len() || !src.is_char_boundary(at) {
+        return Eval { discard: true, ..Default::default() };
+    }
+    let n_tok = if inside_brackets { 1 } else { BAD_TOKENS.len() };
     let bad = format!("{}{} {}", &src[..at], tok, &src[at..]);
     if koto_parser::Parser::parse(src).is_err() {
         // only valid programs get a bad token planted
@@ -456,7 +469,9 @@ fn eval_bad_token(src: &str, seed: u64) -> Eval {
                 return ev;
             }
             if l != line {
-                ev.fail = Some(Fail::new("c12:compile-error-line", format!("illegal token `{tok}` planted on line {line}, error reported on line {l}\n{msg}\n--- source:\n{}", numbered(&bad))));
+                // the signature carries the parser's message: "expected X after Y" errors raised from a look-ahead are
+                // keyed individually in the known findings
+                ev.fail = Some(Fail::new(format!("c12:compile-error-line|{}", msg.lines().next().unwrap_or("").trim()), format!("illegal token `{tok}` planted on line {line}, error reported on line {l}\n{msg}\n--- source:\n{}", numbered(&bad))));
             }
             ev
         }
@@ -604,6 +619,24 @@ fn run_shard(ctx: &mut Ctx) {
             ctx.run_case(&case, || eval_bad_token(&c.text, seed));
         }
     }
+    // every in-bracket site of the corpus texts (quick: a quarter of them)
+    let keep: u64 = ctx.tier.pick(4, 1);
+    for c in corpus.iter() {
+        if c.text.len() > 6000 || koto_parser::Parser::parse(&c.text).is_err() {
+            continue;
+        }
+        for (at, line, n_tok) in bad_token_sites(&c.text) {
+            if n_tok != 1 {
+                continue;
+            }
+            idx += 1;
+            if !ctx.mine(idx) || fnv(format!("{}:{at}", c.name).as_bytes()) % keep != 0 || ctx.too_many_failures() {
+                continue;
+            }
+            let case = json!({"kind": "bad-token-at", "src": c.text, "at": at, "line": line, "tok": "$"});
+            ctx.run_case(&case, || eval_bad_token_at(&c.text, at, line, "$", true));
+        }
+    }
     // weaker clause on the mutation neighbourhood
     let pct: u64 = ctx.tier.pick(3, 100);
     for (ci, c) in corpus.iter().enumerate() {
@@ -634,6 +667,7 @@ fn replay(case: &Value) -> Option<Fail> {
             eval_planted(&p).fail
         }
         "bad-token" => eval_bad_token(case["src"].as_str()?, case["seed"].as_u64()?).fail,
+        "bad-token-at" => eval_bad_token_at(case["src"].as_str()?, case["at"].as_u64()? as usize, case["line"].as_u64()? as usize, case["tok"].as_str()?, true).fail,
         "position" => eval_position_inside(case["src"].as_str()?).fail,
         "span-order" => eval_span_order(case["src"].as_str()?).fail,
         _ => None,
